@@ -72,3 +72,36 @@ def run_value_machine(out, sc, prop, tier, fields=None, extras=()):
     cf_ = sc.work / f"calls-value-{prop}.json"
     cf_.write_text(_json.dumps(calls))
     return run_progs(out, sc, prop, {"calls_file": str(cf_)}, f"value-{prop}", nslices=10, shard_size=1500)
+
+
+def run_harvest(out, sc, prop):
+    """Traces of the repository's own test suite: the 1,467 tests run against the scratch copy with vlib.harvest_plugin
+    loaded; every recorded public call (constructor and modifiers, receiver and result fully observed) is validated by
+    TLC against the property's clauses -- not just the one assertion the test makes."""
+    import json as _json
+    import shutil
+    import subprocess
+
+    from ..core import PY, REPO, MachineryFailure
+    tests = sc.dir / "tests"
+    if not tests.exists():
+        shutil.copytree(REPO / "tests", tests)
+    shards = []
+    for be in ("c", "py"):
+        prefix = sc.work / f"harvest-{prop}-{be}"
+        env = sc.env(be, {"VERIF_HARVEST_OUT": str(prefix)})
+        r = subprocess.run([PY, "-X", "utf8", "-m", "pytest", "-q", "-p", "no:cacheprovider", "-p", "vlib.harvest_plugin", "-n", "0",
+                            "--no-cov", "-x", "--timeout=600", "-o", "addopts=", "-W", "ignore", str(tests),
+                            "--ignore", str(tests / "test_quoting_benchmarks.py"), "--ignore", str(tests / "test_url_benchmarks.py")],
+                           env=env, cwd=str(sc.dir), capture_output=True, text=True, timeout=1800)
+        recs = []
+        for f in sorted(sc.work.glob(f"harvest-{prop}-{be}.*.jsonl")):
+            for ln in f.read_text().splitlines():
+                recs.append(_json.loads(ln))
+        if not recs:
+            raise MachineryFailure("suite harvest produced no records: " + r.stdout[-1500:] + r.stderr[-1500:])
+        for k in range(0, len(recs), 1500):
+            pth = sc.work / f"rec-harvest-{prop}-{be}-{k // 1500:04d}.json"
+            pth.write_text(_json.dumps(recs[k:k + 1500], separators=(",", ":")))
+            shards.append(pth)
+    return validate(out, sc, "TraceUrl", prop, shards, "suite-harvest")
